@@ -48,12 +48,30 @@ def check(env, rep, tier):
         site = {"file": tr.body["span"]["f"], "line": tr.body["span"]["l"], "fn": tr.body["path"]}
         I = tr.I
         rep.analysed.update(prog.bodies[b]["path"] for b in I.visited_bodies if b in prog.bodies)
-        kinds = {"continue": 0, "final": 0, "too_large": 0}
-        ok = {"continue": True, "final": True, "too_large": True}
+        kinds = {"continue": 0, "final": 0, "too_large": 0, "pass": 0}
+        ok = {"continue": True, "final": True, "too_large": True, "spliced": True, "pass": True}
+        budget = None
+        for i in range(body["arg_count"]):
+            if prog.types[body["locals"][i + 1]["ty"]]["s"] == "usize":
+                budget = tr.args[i]
         takes = [e for e in tr.events if e[0] == "buffer-take"]
         for s, rv in tr.res:
             marks = set(k[1] for k in s.ghost if isinstance(k, tuple) and k[0] == "inj")
             ret = tr.ret_kind(rv)
+            if ("code:Continue" in marks or "req-payload-set" in marks) and "spliced" not in marks:
+                ok["spliced"] = False
+            if "false" in ret and not (marks & {"code:Continue", "req-payload-set", "code:RequestEntityTooLarge"}) and s.ghost.get("has_Block1") is False:
+                # request without Block1 passed on to the application: the whole encoded message must fit the budget
+                kinds["pass"] += 1
+                enc = [x for x in s.bounds if I.syminfo.get(x, ("",))[0] == "len" and I.syminfo[x][1] == "encoded"]
+                pl = I.read(s, tr.req_payload_place)
+                fits = False
+                if enc and isinstance(budget, IntV) and isinstance(pl, VecV):
+                    for e_ in enc:
+                        if s.entails(budget.aff - Aff.sym(e_) - pl.len):
+                            fits = True
+                if not fits:
+                    ok["pass"] = False
             if "code:Continue" in marks:
                 kinds["continue"] += 1
                 if ret != {"true"} or "add_option_as:Block1" not in marks and "add_option:Block1" not in marks or "req-payload-set" in marks:
@@ -84,6 +102,11 @@ def check(env, rep, tier):
             if not src:
                 good = False
         rep.ob("C09.1", "final-payload-is-buffer", good, "the payload delivered with the final block is not the value taken from the per-key buffer", site)
+        rep.ob("C09.1", "splice-unconditional", ok["spliced"],
+               "an upload block can be acknowledged (2.31) or completed without having been spliced into the per-key buffer", site)
+        rep.ob("C09.3", "pass-through-fits", ok["pass"] and kinds["pass"] > 0,
+               "a request without Block1 is passed on to the application on a path where its encoded size (measured, not estimated from the payload) is not shown to fit the budget (paths: %d)" % kinds["pass"], site,
+               sample={"rule": "C09.3", "pass_through_paths": kinds["pass"]})
         rep.ob("C09.3", "too-large", ok["too_large"] and kinds["too_large"] > 0,
                "an over-size request without Block1 is not answered 4.13 + Block1 size hint with Ok(true) (paths: %d)" % kinds["too_large"], site)
         # ---- C09.2 splice
